@@ -332,6 +332,25 @@ func genC02(o *Out, rng *rand.Rand, tier string) {
 			emit(m, "single-option")
 		}
 	}
+	// values with a history: encoded / printed / decoded first, then edited in place through exported fields
+	for _, c := range v6Known {
+		for k := 0; k < 4; k++ {
+			d, cls := editedMsg6(rng, []int{c}, 2)
+			emit(d, cls)
+		}
+	}
+	for k := 0; k < n/4; k++ {
+		codes := []int{}
+		for j := pick(rng, 1, 2, 3, rng.Intn(8)); j > 0; j-- {
+			c := randCode6(rng)
+			if c == 9 {
+				c = 8
+			}
+			codes = append(codes, c)
+		}
+		d, cls := editedMsg6(rng, codes, 1+rng.Intn(2))
+		emit(d, cls)
+	}
 	for depth := 0; depth <= 8; depth++ {
 		for k := 0; k < 6; k++ {
 			emit(randMsg6(rng, 2, depth), "relay-chain")
